@@ -194,7 +194,9 @@ func verifC03Sys(id string, seed int64) *verifSys {
 			m.NSend[e.I]--
 			k := len(m.M)
 			lens := []int{14, 250, 300}
-			t := []byte(fmt.Sprintf("<<MARK-%c-%02d>>", 'A'+e.I, k))
+			// the text's own content must not matter: some markers start like OTR messages (query, error, encoded)
+			pre := []string{"", "?OTRv23? ", "?OTR Error: ", "?OTR:AAMD", "?OTR? "}[(k+len(id))%5]
+			t := []byte(fmt.Sprintf("%s<<MARK-%c-%02d>>", pre, 'A'+e.I, k))
 			for len(t) < lens[k%3] {
 				t = append(t, byte('a'+len(t)%26))
 			}
@@ -300,7 +302,7 @@ func init() {
 		Level: "model_checking",
 		Build: verifC03Sys,
 		Run: func(r *verifReport) {
-			r.Rule = "explicit-state exploration of lifecycle histories (Send of fresh unmistakable markers of length 14/250/300, End, query, injected error report, SMP start/answer, extra-key request, clock tick, every FIFO delivery order, within an event budget) under policy sets covering every combination of {requireEncryption, sendWhitespaceTag, whitespaceStartAKE, errorStartAKE} on the sender, with and without fragmentation; a wire monitor inspects EVERY message returned by EVERY call: each marker is searched raw, inside the base64 armour and across reassembled fragments, and every data message is opened with the session keys; a marker given to Send while encrypted / finished / under required encryption must never be readable, a finished-state or plaintext marker must never be emitted encrypted either, a queued marker may only leave inside data messages of a later session"
+			r.Rule = "explicit-state exploration of lifecycle histories (Send of fresh unmistakable markers of length 14/250/300, some of them beginning like an OTR query, error report or encoded message, End, query, injected error report, SMP start/answer, extra-key request, clock tick, every FIFO delivery order, within an event budget) under policy sets covering every combination of {requireEncryption, sendWhitespaceTag, whitespaceStartAKE, errorStartAKE} on the sender, with and without fragmentation; a wire monitor inspects EVERY message returned by EVERY call: each marker is searched raw, inside the base64 armour and across reassembled fragments, and every data message is opened with the session keys; a marker given to Send while encrypted / finished / under required encryption must never be readable, a finished-state or plaintext marker must never be emitted encrypted either, a queued marker may only leave inside data messages of a later session"
 			r.Assumptions = []string{"data messages are opened with package-internal key material of the sender", "marker texts are the only user texts in the world"}
 			var ids []string
 			if r.Tier == "quick" {
